@@ -125,7 +125,7 @@ impl Property for C06 {
         match tier {
             Tier::Quick => Budget {
                 seconds: 25,
-                max_cases: 80_000,
+                max_cases: 60_000,
             },
             Tier::Thorough => Budget {
                 seconds: 600,
@@ -231,7 +231,9 @@ impl Property for C06 {
         // 0 = stdin, 1 = a file argument behind the opener seam, 2 = that file as the only
         // entry of a directory argument
         // 3 = several file arguments, the stream cut at gaps
-        case.set("via", *rng.pick(&[0i64, 0, 0, 1, 2, 3]));
+        // 4 = the file named twice, 5 = the file named directly and reached again through
+        // the directory that holds it
+        case.set("via", *rng.pick(&[0i64, 0, 0, 0, 1, 1, 2, 2, 3, 3, 4, 5]));
         let mut wish = PipeWish::any();
         wish.allow_corpus = false;
         if pol == Policy::Stdout {
@@ -331,6 +333,7 @@ impl Property for C06 {
         let no_early_stop = !has_opt(&case.opts, "--take") && !case.opts.iter().flatten().any(|t| t.contains('&'));
         let via = match case.param("via") {
             v @ (1 | 2) if no_early_stop && case.files.len() == 1 => v,
+            v @ (4 | 5) if no_early_stop && case.files.len() == 1 && pol != Policy::Panic => v,
             3 if no_early_stop && case.files.len() > 1 && case.files.len() == split_files(case).len() => 3,
             _ => 0,
         };
@@ -357,7 +360,44 @@ impl Property for C06 {
                 ctx.stats.probe("noisy stream delivered as several file arguments");
                 ctx.exec(sim_files_spec(case, &paths, &datas, &case.files))
             }
+            4 => {
+                // the same noisy file named twice: read twice, reported twice
+                let p = ctx.fresh_paths(1).remove(0);
+                ctx.stats.probe("noisy file named twice on the command line");
+                let plan = case.files[0].clone();
+                ctx.exec(sim_files_spec(case, &[p.clone(), p], &[noisy.clone(), noisy.clone()], &[plan.clone(), plan]))
+            }
+            5 => {
+                // the noisy file named directly and found again through the directory that holds it
+                let Some(dir) = ctx.fresh_dir() else {
+                    ctx.harness_error = Some("cannot create a directory".into());
+                    return None;
+                };
+                let path = format!("{dir}/only.json");
+                ctx.stats.probe("noisy file named directly and reached again through its directory");
+                let args = if noisy.len() % 2 == 0 { vec![path.clone(), dir.clone()] } else { vec![dir.clone(), path.clone()] };
+                let r = ctx.exec(sim_args_spec(case, &args, &[path], &[noisy.clone()], &case.files));
+                let _ = std::fs::remove_dir_all(&dir);
+                r
+            }
             _ => ctx.exec(case_spec(case, &noisy)),
+        };
+        // read twice: the rows are those of the clean stream twice over (as one input: cutting
+        // in a gap is invisible), and every region is met twice
+        let twice = via >= 4;
+        let clean_pol = if twice {
+            let mut c2 = clean.clone();
+            c2.push(b'\n');
+            c2.extend_from_slice(&clean);
+            let c = ctx.exec(ref_spec(case, &c2));
+            if !c.outcome.is_ok() {
+                ctx.stats.invalid = true;
+                ctx.jawk_panic = None;
+                return None;
+            }
+            c
+        } else {
+            clean_pol
         };
         // how far the run got: jawk's side of the stdin seam, or what the file device delivered
         let progressed = if via > 0 { r.obs.delivered } else { r.obs.consumed };
@@ -453,7 +493,7 @@ impl Property for C06 {
                 match only_error_lines(&r.obs.stderr) {
                     Err(e) => return viol("C06.stderr", format!("stderr contains {e}")),
                     Ok(n) => {
-                        if n < reached.len() {
+                        if n < reached.len() * if twice { 2 } else { 1 } {
                             return viol(
                                 "C06.stderr",
                                 format!("{} malformed regions were reached but only {n} diagnostics were written", reached.len()),
@@ -479,7 +519,7 @@ impl Property for C06 {
                 if let Some(v) = stdout_rule(&rest) {
                     return Some(v);
                 }
-                if at.len() < reached.len() {
+                if at.len() < reached.len() * if twice { 2 } else { 1 } {
                     return viol(
                         "C06.stdout",
                         format!("{} malformed regions were reached but only {} diagnostics were written", reached.len(), at.len()),
@@ -488,7 +528,7 @@ impl Property for C06 {
                 if possible.is_empty() && !at.is_empty() {
                     return viol("C06.stdout", "diagnostics without any reached garbage".to_string());
                 }
-                if class == Class::Stateless && reached.len() == possible.len() {
+                if class == Class::Stateless && reached.len() == possible.len() && !twice {
                     // placement: the diagnostics of a region sit after the rows of the values
                     // that precede it and before the row of the next value
                     let mut allowed = Vec::new();
